@@ -77,7 +77,12 @@ ExtraW == << [f |-> "OP_ADD", kinds |-> <<"n", "n">>, args |-> <<Whole(1), Whole
              [f |-> "PV", kinds |-> <<"n", "n", "n", "n", "n">>, args |-> <<Rat(1, 10), Whole(5), Whole(-100), Whole(0), Whole(1)>>],
              [f |-> "AVERAGE", kinds |-> <<"v", "v">>, args |-> <<Whole(1), Whole(3)>>],
              [f |-> "MAX", kinds |-> <<"v", "v">>, args |-> <<Whole(1), Whole(3)>>],
-             [f |-> "MIN", kinds |-> <<"v", "v">>, args |-> <<Whole(1), Whole(3)>>] >>
+             [f |-> "MIN", kinds |-> <<"v", "v">>, args |-> <<Whole(1), Whole(3)>>],
+             \* a 0 in a variadic list whose result changes when the 0 is dropped (a blank written there is 0, not nothing)
+             [f |-> "AVERAGE", kinds |-> <<"v", "v">>, args |-> <<Whole(0), Whole(4)>>],
+             [f |-> "MIN", kinds |-> <<"v", "v">>, args |-> <<Whole(0), Whole(5)>>],
+             [f |-> "MAX", kinds |-> <<"v", "v">>, args |-> <<Whole(0), Whole(-5)>>],
+             [f |-> "NPV", kinds |-> <<"n", "v", "v">>, args |-> <<Rat(1, 10), Whole(0), Whole(110)>>] >>
 AllW == Witness \o ExtraW
 NumKinds == {"n", "v"}
 \* (sequences, not sets: TLC cannot compare records of different value kinds)
